@@ -133,6 +133,14 @@ def fresh_doc(root: Path, excl):
     return doc
 
 
+def _sorted_entries(doc):
+    d = json.loads(json.dumps(doc))
+    for v in (d.get("codebase", {}).get("tree") or {}).values():
+        if isinstance(v, dict) and isinstance(v.get("entries"), list):
+            v["entries"] = sorted(v["entries"], key=repr)
+    return d
+
+
 _FRESH = {}  # from-scratch report per (file configuration, exclusion config); the real scan runs once per key and worker
 
 
@@ -170,7 +178,17 @@ def do_scan(root: Path, files, excl, cache_doc):
             _FRESH[key] = d
         want = dict(_FRESH[key], root=new_doc.get("root"))
     sel = selected(files, excl)
-    if normalise(new_doc) != want:
+    if normalise(new_doc) != want and _sorted_entries(normalise(new_doc)) == _sorted_entries(want):
+        # same content, only the ORDER in which a folder lists its entries differs from the memoised reference, which was computed
+        # in another directory (listing order is a property of the directory, not of the tree): judge against a from-scratch
+        # scan of THIS directory in its present state
+        want = fresh_doc(root, excl)
+        want["root"] = new_doc.get("root")
+        if normalise(new_doc) != want:
+            out.append(("cached-scan-differs-from-fresh-scan", {"what": "listing-order"},
+                        f"folder entries cached {[(k, v.get('entries')) for k, v in new_doc['codebase']['tree'].items()][:3]} "
+                        f"fresh {[(k, v.get('entries')) for k, v in want['codebase']['tree'].items()][:3]}"))
+    elif normalise(new_doc) != want:
         gf, wf = new_doc["codebase"]["files"], want["codebase"]["files"]
         what = "file-set" if set(gf) != set(wf) else ("file-entry" if gf != wf else "totals-or-tree")
         bad = sorted(set(gf) ^ set(wf)) or [p for p in wf if gf[p] != wf[p]]
